@@ -404,3 +404,43 @@ class SumsBlocks(_ShareSum):
 
 
 REGISTRY.append(SumsBlocks())
+
+
+# ---- C16 column index ------------------------------------------------------------------
+class ColumnIndexBlocks(_BlocksContract):
+    cls = "_ColumnIndex"
+    props = ("C16", "C04")
+
+    def configs(self):
+        # baseline is (R, 1) when the columns dimension is not MR and (R, C) when it is
+        return [dict(c, wide=w) for c in _BlocksContract.configs(self) for w in (False, True)]
+
+    def run(self, B, cfg):
+        env = self.env(B, cfg)
+        R, C = env.R, env.C
+        base = B.tensor("baseline", (R, C if cfg["wide"] else 1), nonneg=True, maybe_nan=True)
+        cm = B.stub(
+            "cube_measures",
+            weighted_cube_counts=env.w.stub,
+            unweighted_cube_counts=env.u.stub,
+            unconditional_cube_counts=B.stub("unconditional_cube_counts", baseline=base),
+        )
+        som = B.stub(
+            "second_order_measures",
+            weighted_counts=blocks_stub(B, "weighted_counts", spec.count_blocks(B, env, env.w)),
+            column_weighted_bases=blocks_stub(B, "column_weighted_bases", spec.column_base_blocks(B, env, env.w)),
+        )
+        obj = B.new("%s:_ColumnIndex" % MOD, env.dims, som, cm)
+        rd = B.rd
+
+        def idx(i, j):
+            share = rd(base, i, j if cfg["wide"] else 0)
+            return 100 * ((rd(env.w.counts, i, j) / rd(env.w.column_bases, i, j)) / share)
+
+        expected = spec.blocks_from(
+            B, env, idx, lambda i, t: B.NaN(), lambda s, j: B.NaN(), lambda s, t: B.NaN()
+        )
+        check_blocks(B, "blocks", obj.blocks, expected)
+
+
+REGISTRY.append(ColumnIndexBlocks())
